@@ -37,15 +37,27 @@ pub struct Pfx {
 }
 
 fn shr(x: u128, n: u32) -> u128 {
-    if n >= 128 { 0 } else { x >> n }
+    if n >= 128 {
+        0
+    } else {
+        x >> n
+    }
 }
 fn shl(x: u128, n: u32) -> u128 {
-    if n >= 128 { 0 } else { x << n }
+    if n >= 128 {
+        0
+    } else {
+        x << n
+    }
 }
 
 impl Pfx {
     pub fn max(&self) -> u8 {
-        if self.v6 { 128 } else { 32 }
+        if self.v6 {
+            128
+        } else {
+            32
+        }
     }
     pub fn tok(&self) -> String {
         format!("{}.{}/{}", if self.v6 { 6 } else { 4 }, self.bits, self.len)
@@ -59,17 +71,29 @@ impl Pfx {
                 return None;
             }
             let x = u32::from(v4) as u128;
-            Some(Pfx { v6: false, bits: shr(x, 32 - len as u32), len })
+            Some(Pfx {
+                v6: false,
+                bits: shr(x, 32 - len as u32),
+                len,
+            })
         } else {
             let v6 = a.parse::<std::net::Ipv6Addr>().ok()?;
             if len > 128 {
                 return None;
             }
-            Some(Pfx { v6: true, bits: shr(u128::from(v6), 128 - len as u32), len })
+            Some(Pfx {
+                v6: true,
+                bits: shr(u128::from(v6), 128 - len as u32),
+                len,
+            })
         }
     }
     pub fn trunc(&self, j: u8) -> Pfx {
-        Pfx { v6: self.v6, bits: shr(self.bits, (self.len - j) as u32), len: j }
+        Pfx {
+            v6: self.v6,
+            bits: shr(self.bits, (self.len - j) as u32),
+            len: j,
+        }
     }
     pub fn covers(&self, q: &Pfx) -> bool {
         self.v6 == q.v6 && self.len <= q.len && q.trunc(self.len) == *self
@@ -80,9 +104,17 @@ impl Pfx {
             return None;
         }
         let d = (l - self.len) as u32;
-        let ext = if ones && d > 0 { shl(1, d).wrapping_sub(1) } else { 0 };
+        let ext = if ones && d > 0 {
+            shl(1, d).wrapping_sub(1)
+        } else {
+            0
+        };
         let ext = if ones && d >= 128 { u128::MAX } else { ext };
-        Some(Pfx { v6: self.v6, bits: shl(self.bits, d) | ext, len: l })
+        Some(Pfx {
+            v6: self.v6,
+            bits: shl(self.bits, d) | ext,
+            len: l,
+        })
     }
 }
 
@@ -144,7 +176,10 @@ impl Expr {
             Expr::FilterSet(n) => out.push(format!("F:{n}")),
             Expr::Lit(ms, op) => out.push(format!(
                 "L:{}:{}",
-                ms.iter().map(|(p, o)| format!("{}{}", p.tok(), o.tok())).collect::<Vec<_>>().join(";"),
+                ms.iter()
+                    .map(|(p, o)| format!("{}{}", p.tok(), o.tok()))
+                    .collect::<Vec<_>>()
+                    .join(";"),
                 op.tok()
             )),
             Expr::AsSet(n, op) => out.push(format!("S:{n}:{}", op.tok())),
@@ -222,7 +257,11 @@ pub struct Db {
 }
 
 fn section(v: Vec<String>) -> String {
-    if v.is_empty() { ".".into() } else { v.join(",") }
+    if v.is_empty() {
+        ".".into()
+    } else {
+        v.join(",")
+    }
 }
 
 impl Db {
@@ -263,7 +302,12 @@ impl Db {
         let t = self
             .routes
             .iter()
-            .map(|(a, ps)| format!("{a}={}", ps.iter().map(|p| p.tok()).collect::<Vec<_>>().join(";")))
+            .map(|(a, ps)| {
+                format!(
+                    "{a}={}",
+                    ps.iter().map(|p| p.tok()).collect::<Vec<_>>().join(";")
+                )
+            })
             .collect();
         let f = self
             .filter_sets
@@ -281,10 +325,20 @@ impl Db {
                 )
             })
             .collect();
-        format!("{}|{}|{}|{}|{}", if self.empty_d { "d" } else { "c" }, section(a), section(r), section(t), section(f))
+        format!(
+            "{}|{}|{}|{}|{}",
+            if self.empty_d { "d" } else { "c" },
+            section(a),
+            section(r),
+            section(t),
+            section(f)
+        )
     }
     pub fn has_ranged_members(&self) -> bool {
-        self.route_sets.iter().any(|(_, ms)| ms.iter().any(|m| matches!(m, RsMem::Pfx(_, o) if *o != Op::None)))
+        self.route_sets.iter().any(|(_, ms)| {
+            ms.iter()
+                .any(|m| matches!(m, RsMem::Pfx(_, o) if *o != Op::None))
+        })
     }
 }
 
@@ -331,7 +385,11 @@ fn qtok(line: &str) -> String {
     } else if let Some(r) = line.strip_prefix("!mfilter-set,") {
         format!("m{r}")
     } else if let Some(r) = line.strip_prefix("!i").and_then(|r| r.strip_suffix(",1")) {
-        if r.to_ascii_uppercase().starts_with("RS-") { format!("r{r}") } else { format!("a{r}") }
+        if r.to_ascii_uppercase().starts_with("RS-") {
+            format!("r{r}")
+        } else {
+            format!("a{r}")
+        }
     } else {
         format!("?{}", hexs(line))
     }
@@ -372,12 +430,19 @@ pub struct Case {
 
 impl Case {
     fn items_tok(&self) -> String {
-        self.items.iter().map(|i| format!("{}*{}", i.expr.hex(), faults_tok(&i.faults))).collect::<Vec<_>>().join("+")
+        self.items
+            .iter()
+            .map(|i| format!("{}*{}", i.expr.hex(), faults_tok(&i.faults)))
+            .collect::<Vec<_>>()
+            .join("+")
     }
     fn cands_tok(&self) -> String {
         let mut v: Vec<&Item> = self.items.iter().collect();
         v.sort_by(|a, b| a.name.cmp(&b.name));
-        v.iter().map(|i| format!("{}*{}*{}", i.name, i.expr.hex(), faults_tok(&i.faults))).collect::<Vec<_>>().join("+")
+        v.iter()
+            .map(|i| format!("{}*{}*{}", i.name, i.expr.hex(), faults_tok(&i.faults)))
+            .collect::<Vec<_>>()
+            .join("+")
     }
     pub fn descr(&self) -> String {
         let r = match self.runner {
@@ -391,7 +456,15 @@ impl Case {
             .map(|i| format!("{}[{}]", i.expr.rpn(), faults_tok(&i.faults)))
             .collect::<Vec<_>>()
             .join(" ; ");
-        format!("{}/{}/{} {} db={} exprs={}", self.family, self.seed, self.idx, r, self.db.tok(), human)
+        format!(
+            "{}/{}/{} {} db={} exprs={}",
+            self.family,
+            self.seed,
+            self.idx,
+            r,
+            self.db.tok(),
+            human
+        )
     }
 }
 
@@ -403,34 +476,86 @@ impl Case {
 /// about 0.2 s for a /16, 40 s for a /24, never for a /32.  Cases that contain `NOT` therefore draw
 /// all their prefixes from these pools of short prefixes.
 fn v4short() -> Vec<Pfx> {
-    ["10.0.0.0/8", "10.0.0.0/9", "10.128.0.0/9", "10.64.0.0/10", "0.0.0.0/0", "172.16.0.0/12", "192.0.0.0/7", "11.0.0.0/8"].iter().map(|s| p(s)).collect()
+    [
+        "10.0.0.0/8",
+        "10.0.0.0/9",
+        "10.128.0.0/9",
+        "10.64.0.0/10",
+        "0.0.0.0/0",
+        "172.16.0.0/12",
+        "192.0.0.0/7",
+        "11.0.0.0/8",
+    ]
+    .iter()
+    .map(|s| p(s))
+    .collect()
 }
 fn v6short() -> Vec<Pfx> {
-    ["2000::/3", "2000::/4", "3000::/4", "::/0", "fc00::/7", "2001::/12", "2400::/6"].iter().map(|s| p(s)).collect()
+    [
+        "2000::/3",
+        "2000::/4",
+        "3000::/4",
+        "::/0",
+        "fc00::/7",
+        "2001::/12",
+        "2400::/6",
+    ]
+    .iter()
+    .map(|s| p(s))
+    .collect()
 }
 fn pools(short: bool) -> (Vec<Pfx>, Vec<Pfx>) {
-    if short { (v4short(), v6short()) } else { (v4pool(), v6pool()) }
+    if short {
+        (v4short(), v6short())
+    } else {
+        (v4pool(), v6pool())
+    }
 }
 
 fn v4pool() -> Vec<Pfx> {
-    ["10.0.0.0/8", "10.0.0.0/9", "10.128.0.0/9", "10.1.0.0/16", "192.0.2.0/24", "192.0.2.0/25", "192.0.2.128/25",
-     "198.51.100.0/24", "0.0.0.0/0", "203.0.113.7/32", "172.16.0.0/12"]
-        .iter()
-        .map(|s| p(s))
-        .collect()
+    [
+        "10.0.0.0/8",
+        "10.0.0.0/9",
+        "10.128.0.0/9",
+        "10.1.0.0/16",
+        "192.0.2.0/24",
+        "192.0.2.0/25",
+        "192.0.2.128/25",
+        "198.51.100.0/24",
+        "0.0.0.0/0",
+        "203.0.113.7/32",
+        "172.16.0.0/12",
+    ]
+    .iter()
+    .map(|s| p(s))
+    .collect()
 }
 fn v6pool() -> Vec<Pfx> {
-    ["2001:db8::/32", "2001:db8::/33", "2001:db8:8000::/33", "2001:db8:1::/48", "::/0", "2001:db8::1/128",
-     "2001:db8:0:1::/64", "fc00::/7"]
-        .iter()
-        .map(|s| p(s))
-        .collect()
+    [
+        "2001:db8::/32",
+        "2001:db8::/33",
+        "2001:db8:8000::/33",
+        "2001:db8:1::/48",
+        "::/0",
+        "2001:db8::1/128",
+        "2001:db8:0:1::/64",
+        "fc00::/7",
+    ]
+    .iter()
+    .map(|s| p(s))
+    .collect()
 }
 
 fn gen_op(rng: &mut Rng, base: Option<&Pfx>, any_family: bool) -> Op {
     let max: u8 = match base {
         Some(b) => b.max(),
-        None => if any_family { 32 } else { 128 },
+        None => {
+            if any_family {
+                32
+            } else {
+                128
+            }
+        }
     };
     let lo = base.map(|b| b.len).unwrap_or(8);
     match rng.below(8) {
@@ -447,15 +572,27 @@ fn gen_op(rng: &mut Rng, base: Option<&Pfx>, any_family: bool) -> Op {
         }
         _ => {
             let a = (lo as usize + rng.below((max - lo) as usize + 1)).min(max as usize) as u8;
-            let a = if rng.chance(1, 6) { lo.saturating_sub(2) } else { a };
-            let b = if rng.chance(1, 8) { a.saturating_sub(1) } else { (a as usize + rng.below((max - a) as usize + 1)) as u8 };
+            let a = if rng.chance(1, 6) {
+                lo.saturating_sub(2)
+            } else {
+                a
+            };
+            let b = if rng.chance(1, 8) {
+                a.saturating_sub(1)
+            } else {
+                (a as usize + rng.below((max - a) as usize + 1)) as u8
+            };
             Op::Range(a, b)
         }
     }
 }
 
 fn maybe_op(rng: &mut Rng, base: Option<&Pfx>, num: u64, den: u64) -> Op {
-    if rng.chance(num, den) { gen_op(rng, base, true) } else { Op::None }
+    if rng.chance(num, den) {
+        gen_op(rng, base, true)
+    } else {
+        Op::None
+    }
 }
 
 pub struct GenOpts {
@@ -466,7 +603,10 @@ pub struct GenOpts {
 }
 
 fn gen_db(rng: &mut Rng, g: &GenOpts) -> Db {
-    let mut db = Db { empty_d: rng.chance(1, 2), ..Default::default() };
+    let mut db = Db {
+        empty_d: rng.chance(1, 2),
+        ..Default::default()
+    };
     let (p4, p6) = pools(g.short);
     let n_as = 2 + rng.below(9);
     let asns: Vec<u32> = (0..n_as).map(|i| 64500 + i as u32).collect();
@@ -525,8 +665,16 @@ fn gen_db(rng: &mut Rng, g: &GenOpts) -> Db {
                 0 | 1 => ms.push(RsMem::Set(rng.pick(&rs_names).clone())),
                 2 => ms.push(RsMem::Asn(*rng.pick(&asns))),
                 _ => {
-                    let px = if rng.chance(2, 3) { rng.pick(&p4).clone() } else { rng.pick(&p6).clone() };
-                    let op = if g.ranged_members && rng.chance(1, 2) { gen_op(rng, Some(&px), false) } else { Op::None };
+                    let px = if rng.chance(2, 3) {
+                        rng.pick(&p4).clone()
+                    } else {
+                        rng.pick(&p6).clone()
+                    };
+                    let op = if g.ranged_members && rng.chance(1, 2) {
+                        gen_op(rng, Some(&px), false)
+                    } else {
+                        Op::None
+                    };
                     ms.push(RsMem::Pfx(px, op));
                 }
             }
@@ -540,7 +688,13 @@ fn gen_db(rng: &mut Rng, g: &GenOpts) -> Db {
         }
         // inner expression; may refer to a later filter-set (acyclic)
         let later: Vec<String> = fs_names[i + 1..].to_vec();
-        let names = Names { as_sets: as_names.clone(), route_sets: rs_names.clone(), filter_sets: later, asns: asns.clone(), short: g.short };
+        let names = Names {
+            as_sets: as_names.clone(),
+            route_sets: rs_names.clone(),
+            filter_sets: later,
+            asns: asns.clone(),
+            short: g.short,
+        };
         objs.push(Some(gen_expr(rng, &names, 2, false, false)));
         if rng.chance(1, 6) {
             objs.push(Some(Expr::Any)); // a second object: must be ignored
@@ -576,8 +730,16 @@ fn gen_lit(rng: &mut Rng, short: bool) -> Expr {
     let k = rng.below(4);
     let mut ms = vec![];
     for _ in 0..k {
-        let px = if rng.chance(3, 5) { rng.pick(&p4).clone() } else { rng.pick(&p6).clone() };
-        let op = if rng.chance(1, 2) { gen_op(rng, Some(&px), false) } else { Op::None };
+        let px = if rng.chance(3, 5) {
+            rng.pick(&p4).clone()
+        } else {
+            rng.pick(&p6).clone()
+        };
+        let op = if rng.chance(1, 2) {
+            gen_op(rng, Some(&px), false)
+        } else {
+            Op::None
+        };
         ms.push((px, op));
     }
     let outer = maybe_op(rng, None, 1, 4);
@@ -601,13 +763,23 @@ fn gen_atom(rng: &mut Rng, n: &Names, unknown: bool, unsupported: bool) -> Expr 
     }
     for _ in 0..8 {
         match rng.below(10) {
-            0 | 1 | 2 if !n.as_sets.is_empty() => return Expr::AsSet(rng.pick(&n.as_sets).clone(), maybe_op(rng, None, 1, 4)),
-            3 | 4 if !n.route_sets.is_empty() => return Expr::RouteSet(rng.pick(&n.route_sets).clone(), maybe_op(rng, None, 1, 4)),
+            0 | 1 | 2 if !n.as_sets.is_empty() => {
+                return Expr::AsSet(rng.pick(&n.as_sets).clone(), maybe_op(rng, None, 1, 4))
+            }
+            3 | 4 if !n.route_sets.is_empty() => {
+                return Expr::RouteSet(rng.pick(&n.route_sets).clone(), maybe_op(rng, None, 1, 4))
+            }
             5 | 6 => {
-                let a = if rng.chance(1, 10) || n.asns.is_empty() { 64999 } else { *rng.pick(&n.asns) };
+                let a = if rng.chance(1, 10) || n.asns.is_empty() {
+                    64999
+                } else {
+                    *rng.pick(&n.asns)
+                };
                 return Expr::AutNum(a, maybe_op(rng, None, 1, 4));
             }
-            7 if !n.filter_sets.is_empty() => return Expr::FilterSet(rng.pick(&n.filter_sets).clone()),
+            7 if !n.filter_sets.is_empty() => {
+                return Expr::FilterSet(rng.pick(&n.filter_sets).clone())
+            }
             8 => return gen_lit(rng, n.short),
             9 => {
                 return match rng.below(4) {
@@ -645,17 +817,39 @@ fn small_db() -> Db {
     Db {
         empty_d: true,
         as_sets: vec![
-            ("AS-S0".into(), vec![AsMem::Asn(64500), AsMem::Set("AS-S1".into())]),
-            ("AS-S1".into(), vec![AsMem::Asn(64501), AsMem::Set("AS-S0".into())]),
+            (
+                "AS-S0".into(),
+                vec![AsMem::Asn(64500), AsMem::Set("AS-S1".into())],
+            ),
+            (
+                "AS-S1".into(),
+                vec![AsMem::Asn(64501), AsMem::Set("AS-S0".into())],
+            ),
         ],
-        route_sets: vec![("RS-R0".into(), vec![RsMem::Pfx(p("192.0.2.0/24"), Op::None), RsMem::Set("RS-R0".into())])],
-        routes: vec![(64500, vec![p("10.0.0.0/8"), p("2001:db8::/32")]), (64501, vec![p("198.51.100.0/24")])],
-        filter_sets: vec![("FLTR-F0".into(), vec![Some(Expr::AsSet("AS-S0".into(), Op::None))])],
+        route_sets: vec![(
+            "RS-R0".into(),
+            vec![
+                RsMem::Pfx(p("192.0.2.0/24"), Op::None),
+                RsMem::Set("RS-R0".into()),
+            ],
+        )],
+        routes: vec![
+            (64500, vec![p("10.0.0.0/8"), p("2001:db8::/32")]),
+            (64501, vec![p("198.51.100.0/24")]),
+        ],
+        filter_sets: vec![(
+            "FLTR-F0".into(),
+            vec![Some(Expr::AsSet("AS-S0".into(), Op::None))],
+        )],
     }
 }
 
 fn item(name: &str, e: Expr) -> Item {
-    Item { name: name.into(), expr: e, faults: vec![] }
+    Item {
+        name: name.into(),
+        expr: e,
+        faults: vec![],
+    }
 }
 
 fn case_rng(seed: u64, family: &str, idx: usize) -> Rng {
@@ -698,10 +892,16 @@ fn gen_faults(rng: &mut Rng, db: &Db, e: &Expr, only_query_sel: bool) -> Vec<Fau
         if only_query_sel || rng.chance(1, 3) {
             let qs = direct_queries(db, e);
             if !qs.is_empty() {
-                fs.push(Fault { sel: FSel::Query(rng.pick(&qs).clone()), kind });
+                fs.push(Fault {
+                    sel: FSel::Query(rng.pick(&qs).clone()),
+                    kind,
+                });
             }
         } else {
-            fs.push(Fault { sel: FSel::Idx(rng.below(8)), kind });
+            fs.push(Fault {
+                sel: FSel::Idx(rng.below(8)),
+                kind,
+            });
         }
     }
     fs
@@ -709,32 +909,109 @@ fn gen_faults(rng: &mut Rng, db: &Db, e: &Expr, only_query_sel: bool) -> Vec<Fau
 
 pub fn gen_case(family: &str, seed: u64, idx: usize) -> Case {
     let mut rng = case_rng(seed, family, idx);
-    let mk = |runner, db, items| Case { family: family.into(), seed, idx, runner, db, items };
+    let mk = |runner, db, items| Case {
+        family: family.into(),
+        seed,
+        idx,
+        runner,
+        db,
+        items,
+    };
     match family {
         "c11" => {
             // hand-written small cases first
             match idx {
-                0 => return mk(Runner::Lib, small_db(), vec![item("p0", Expr::AsSet("AS-S0".into(), Op::None)), item("p1", Expr::RouteSet("RS-R0".into(), Op::None))]),
+                0 => {
+                    return mk(
+                        Runner::Lib,
+                        small_db(),
+                        vec![
+                            item("p0", Expr::AsSet("AS-S0".into(), Op::None)),
+                            item("p1", Expr::RouteSet("RS-R0".into(), Op::None)),
+                        ],
+                    )
+                }
                 1 => {
                     let mut db = small_db();
-                    db.route_sets = vec![("RS-R0".into(), vec![RsMem::Pfx(p("10.0.0.0/8"), Op::LessIncl)])];
-                    return mk(Runner::Lib, db, vec![item("p0", Expr::RouteSet("RS-R0".into(), Op::None))]);
+                    db.route_sets = vec![(
+                        "RS-R0".into(),
+                        vec![RsMem::Pfx(p("10.0.0.0/8"), Op::LessIncl)],
+                    )];
+                    return mk(
+                        Runner::Lib,
+                        db,
+                        vec![item("p0", Expr::RouteSet("RS-R0".into(), Op::None))],
+                    );
                 }
                 2 => {
                     let mut db = small_db();
-                    db.route_sets = vec![("RS-R0".into(), vec![RsMem::Pfx(p("192.0.2.0/24"), Op::Range(25, 32)), RsMem::Pfx(p("198.51.100.0/24"), Op::None)])];
-                    return mk(Runner::Bin, db, vec![item("p0", Expr::RouteSet("RS-R0".into(), Op::None))]);
+                    db.route_sets = vec![(
+                        "RS-R0".into(),
+                        vec![
+                            RsMem::Pfx(p("192.0.2.0/24"), Op::Range(25, 32)),
+                            RsMem::Pfx(p("198.51.100.0/24"), Op::None),
+                        ],
+                    )];
+                    return mk(
+                        Runner::Bin,
+                        db,
+                        vec![item("p0", Expr::RouteSet("RS-R0".into(), Op::None))],
+                    );
                 }
                 3 => {
                     let mut db = small_db();
-                    db.route_sets = vec![("RS-R0".into(), vec![RsMem::Pfx(p("2001:db8::/32"), Op::Exact(48))])];
-                    return mk(Runner::Agent, db, vec![item("p0", Expr::RouteSet("RS-R0".into(), Op::None)), item("p1", Expr::AutNum(64500, Op::None))]);
+                    db.route_sets = vec![(
+                        "RS-R0".into(),
+                        vec![RsMem::Pfx(p("2001:db8::/32"), Op::Exact(48))],
+                    )];
+                    return mk(
+                        Runner::Agent,
+                        db,
+                        vec![
+                            item("p0", Expr::RouteSet("RS-R0".into(), Op::None)),
+                            item("p1", Expr::AutNum(64500, Op::None)),
+                        ],
+                    );
                 }
-                4 => return mk(Runner::Bin, small_db(), vec![item("p0", Expr::And(Box::new(Expr::AsSet("AS-S0".into(), Op::LessIncl)), Box::new(Expr::Not(Box::new(Expr::Lit(vec![(p("10.0.0.0/8"), Op::Range(9, 24))], Op::None))))))]),
-                5 => return mk(Runner::Agent, small_db(), vec![item("p0", Expr::FilterSet("FLTR-F0".into())), item("p1", Expr::Or(Box::new(Expr::AutNum(64501, Op::None)), Box::new(Expr::RouteSet("RS-R0".into(), Op::LessExcl))))]),
+                4 => {
+                    return mk(
+                        Runner::Bin,
+                        small_db(),
+                        vec![item(
+                            "p0",
+                            Expr::And(
+                                Box::new(Expr::AsSet("AS-S0".into(), Op::LessIncl)),
+                                Box::new(Expr::Not(Box::new(Expr::Lit(
+                                    vec![(p("10.0.0.0/8"), Op::Range(9, 24))],
+                                    Op::None,
+                                )))),
+                            ),
+                        )],
+                    )
+                }
+                5 => {
+                    return mk(
+                        Runner::Agent,
+                        small_db(),
+                        vec![
+                            item("p0", Expr::FilterSet("FLTR-F0".into())),
+                            item(
+                                "p1",
+                                Expr::Or(
+                                    Box::new(Expr::AutNum(64501, Op::None)),
+                                    Box::new(Expr::RouteSet("RS-R0".into(), Op::LessExcl)),
+                                ),
+                            ),
+                        ],
+                    )
+                }
                 _ => {}
             }
-            let g = GenOpts { ranged_members: idx % 4 == 0, unknown_names: idx % 5 == 0, short: idx % 2 == 1 };
+            let g = GenOpts {
+                ranged_members: idx % 4 == 0,
+                unknown_names: idx % 5 == 0,
+                short: idx % 2 == 1,
+            };
             let db = gen_db(&mut rng, &g);
             let names = names_of(&db, g.short);
             let runner = match idx % 3 {
@@ -746,7 +1023,14 @@ pub fn gen_case(family: &str, seed: u64, idx: usize) -> Case {
                 Runner::Bin => 2,
                 _ => 2 + rng.below(3),
             };
-            let items = (0..k).map(|i| item(&format!("p{i}"), gen_expr(&mut rng, &names, 3, idx % 7 == 0, false))).collect();
+            let items = (0..k)
+                .map(|i| {
+                    item(
+                        &format!("p{i}"),
+                        gen_expr(&mut rng, &names, 3, idx % 7 == 0, false),
+                    )
+                })
+                .collect();
             mk(runner, db, items)
         }
         "c17" => {
@@ -755,57 +1039,168 @@ pub fn gen_case(family: &str, seed: u64, idx: usize) -> Case {
                     // a failed evaluation (as-set unknown to the server), then the same names again
                     let db = small_db();
                     let a = Expr::AsSet("AS-S0".into(), Op::None);
-                    return mk(Runner::Lib, db, vec![
-                        Item { name: "p0".into(), expr: a.clone(), faults: vec![Fault { sel: FSel::Idx(0), kind: 'D' }] },
-                        item("p1", a.clone()),
-                        Item { name: "p2".into(), expr: a.clone(), faults: vec![Fault { sel: FSel::Idx(2), kind: 'F' }] },
-                        item("p3", Expr::FilterSet("FLTR-F0".into())),
-                        item("p4", a),
-                    ]);
+                    return mk(
+                        Runner::Lib,
+                        db,
+                        vec![
+                            Item {
+                                name: "p0".into(),
+                                expr: a.clone(),
+                                faults: vec![Fault {
+                                    sel: FSel::Idx(0),
+                                    kind: 'D',
+                                }],
+                            },
+                            item("p1", a.clone()),
+                            Item {
+                                name: "p2".into(),
+                                expr: a.clone(),
+                                faults: vec![Fault {
+                                    sel: FSel::Idx(2),
+                                    kind: 'F',
+                                }],
+                            },
+                            item("p3", Expr::FilterSet("FLTR-F0".into())),
+                            item("p4", a),
+                        ],
+                    );
                 }
                 1 => {
                     // filter-set with two objects: the resolver stops reading at the first mp-filter
                     let mut db = small_db();
-                    db.filter_sets = vec![("FLTR-F0".into(), vec![None, Some(Expr::AutNum(64500, Op::None)), Some(Expr::Any)])];
-                    return mk(Runner::Lib, db, vec![item("p0", Expr::FilterSet("FLTR-F0".into())), item("p1", Expr::AutNum(64501, Op::None)), item("p2", Expr::FilterSet("FLTR-F0".into()))]);
+                    db.filter_sets = vec![(
+                        "FLTR-F0".into(),
+                        vec![None, Some(Expr::AutNum(64500, Op::None)), Some(Expr::Any)],
+                    )];
+                    return mk(
+                        Runner::Lib,
+                        db,
+                        vec![
+                            item("p0", Expr::FilterSet("FLTR-F0".into())),
+                            item("p1", Expr::AutNum(64501, Op::None)),
+                            item("p2", Expr::FilterSet("FLTR-F0".into())),
+                        ],
+                    );
                 }
                 _ => {}
             }
-            let g = GenOpts { ranged_members: false, unknown_names: true, short: idx % 2 == 1 };
+            let g = GenOpts {
+                ranged_members: false,
+                unknown_names: true,
+                short: idx % 2 == 1,
+            };
             let db = gen_db(&mut rng, &g);
             let names = names_of(&db, g.short);
             let k = 2 + rng.below(7);
             let mut items: Vec<Item> = vec![];
             for i in 0..k {
                 // repeat an earlier expression now and then: same expression, different history
-                let e = if i > 0 && rng.chance(1, 3) { items[rng.below(i)].expr.clone() } else { gen_expr(&mut rng, &names, 2, true, false) };
+                let e = if i > 0 && rng.chance(1, 3) {
+                    items[rng.below(i)].expr.clone()
+                } else {
+                    gen_expr(&mut rng, &names, 2, true, false)
+                };
                 let faults = gen_faults(&mut rng, &db, &e, false);
-                items.push(Item { name: format!("p{i}"), expr: e, faults });
+                items.push(Item {
+                    name: format!("p{i}"),
+                    expr: e,
+                    faults,
+                });
             }
             mk(Runner::Lib, db, items)
         }
         "c15" => {
             let s0 = || Expr::AsSet("AS-S0".into(), Op::None);
             match idx {
-                0 => return mk(Runner::Agent, small_db(), vec![item("p0", s0()), item("p1", Expr::PeerAs(Op::None))]),
-                1 => return mk(Runner::Agent, small_db(), vec![item("p0", s0()), item("p1", Expr::AsPath)]),
-                2 => return mk(Runner::Agent, small_db(), vec![item("p0", s0()), item("p1", Expr::Attr)]),
-                3 => return mk(Runner::Agent, small_db(), vec![item("p0", s0()), item("p1", Expr::AsSet("AS-UNKNOWN".into(), Op::None)), item("p2", Expr::AutNum(64501, Op::None))]),
-                4 => return mk(Runner::Lib, small_db(), vec![item("p0", s0()), item("p1", Expr::PeerAs(Op::None)), item("p2", s0())]),
-                5 => return mk(Runner::Lib, small_db(), vec![item("p0", Expr::And(Box::new(s0()), Box::new(Expr::AsPath))), item("p1", s0())]),
+                0 => {
+                    return mk(
+                        Runner::Agent,
+                        small_db(),
+                        vec![item("p0", s0()), item("p1", Expr::PeerAs(Op::None))],
+                    )
+                }
+                1 => {
+                    return mk(
+                        Runner::Agent,
+                        small_db(),
+                        vec![item("p0", s0()), item("p1", Expr::AsPath)],
+                    )
+                }
+                2 => {
+                    return mk(
+                        Runner::Agent,
+                        small_db(),
+                        vec![item("p0", s0()), item("p1", Expr::Attr)],
+                    )
+                }
+                3 => {
+                    return mk(
+                        Runner::Agent,
+                        small_db(),
+                        vec![
+                            item("p0", s0()),
+                            item("p1", Expr::AsSet("AS-UNKNOWN".into(), Op::None)),
+                            item("p2", Expr::AutNum(64501, Op::None)),
+                        ],
+                    )
+                }
+                4 => {
+                    return mk(
+                        Runner::Lib,
+                        small_db(),
+                        vec![
+                            item("p0", s0()),
+                            item("p1", Expr::PeerAs(Op::None)),
+                            item("p2", s0()),
+                        ],
+                    )
+                }
+                5 => {
+                    return mk(
+                        Runner::Lib,
+                        small_db(),
+                        vec![
+                            item("p0", Expr::And(Box::new(s0()), Box::new(Expr::AsPath))),
+                            item("p1", s0()),
+                        ],
+                    )
+                }
                 6 => {
-                    let f = vec![Fault { sel: FSel::Query("aAS-S0".into()), kind: 'F' }];
-                    return mk(Runner::Agent, small_db(), vec![
-                        Item { name: "p0".into(), expr: s0(), faults: f.clone() },
-                        Item { name: "p1".into(), expr: Expr::AutNum(64500, Op::None), faults: f },
-                    ]);
+                    let f = vec![Fault {
+                        sel: FSel::Query("aAS-S0".into()),
+                        kind: 'F',
+                    }];
+                    return mk(
+                        Runner::Agent,
+                        small_db(),
+                        vec![
+                            Item {
+                                name: "p0".into(),
+                                expr: s0(),
+                                faults: f.clone(),
+                            },
+                            Item {
+                                name: "p1".into(),
+                                expr: Expr::AutNum(64500, Op::None),
+                                faults: f,
+                            },
+                        ],
+                    );
                 }
                 _ => {}
             }
-            let g = GenOpts { ranged_members: false, unknown_names: true, short: idx % 2 == 1 };
+            let g = GenOpts {
+                ranged_members: false,
+                unknown_names: true,
+                short: idx % 2 == 1,
+            };
             let db = gen_db(&mut rng, &g);
             let names = names_of(&db, g.short);
-            let runner = if idx % 4 == 3 { Runner::Lib } else { Runner::Agent };
+            let runner = if idx % 4 == 3 {
+                Runner::Lib
+            } else {
+                Runner::Agent
+            };
             let k = 2 + rng.below(3);
             let unsupported_in_set = rng.chance(3, 5);
             let mut items: Vec<Item> = (0..k)
@@ -816,7 +1211,10 @@ pub fn gen_case(family: &str, seed: u64, idx: usize) -> Case {
                 .collect();
             // IRRd error answers, selected by query text (independent of the evaluation order)
             if rng.chance(1, 2) {
-                let all = Expr::Or(Box::new(items[0].expr.clone()), Box::new(items[items.len() - 1].expr.clone()));
+                let all = Expr::Or(
+                    Box::new(items[0].expr.clone()),
+                    Box::new(items[items.len() - 1].expr.clone()),
+                );
                 let fs = gen_faults(&mut rng, &db, &all, true);
                 for it in items.iter_mut() {
                     it.faults = fs.clone();
@@ -827,14 +1225,26 @@ pub fn gen_case(family: &str, seed: u64, idx: usize) -> Case {
         "c03" => {
             // several managed policies of one run share an as-set whose expansion fails (IRRd answers
             // D / E / F, or the set does not exist); the others are ordinary
-            let g = GenOpts { ranged_members: false, unknown_names: false, short: idx % 2 == 1 };
-            let mut db = if idx % 3 == 0 { small_db() } else { gen_db(&mut rng, &g) };
+            let g = GenOpts {
+                ranged_members: false,
+                unknown_names: false,
+                short: idx % 2 == 1,
+            };
+            let mut db = if idx % 3 == 0 {
+                small_db()
+            } else {
+                gen_db(&mut rng, &g)
+            };
             if db.as_sets.is_empty() {
                 db = small_db();
             }
             let names = names_of(&db, g.short);
             let gone = idx % 4 == 1;
-            let shared = if gone { "AS-GONE".to_string() } else { rng.pick(&db.as_sets).0.clone() };
+            let shared = if gone {
+                "AS-GONE".to_string()
+            } else {
+                rng.pick(&db.as_sets).0.clone()
+            };
             let s = || Expr::AsSet(shared.clone(), Op::None);
             let k = 2 + rng.below(3);
             let mut items: Vec<Item> = vec![];
@@ -858,14 +1268,21 @@ pub fn gen_case(family: &str, seed: u64, idx: usize) -> Case {
                     }
                     let mut has_not = false;
                     e.walk(&mut |x| has_not |= matches!(x, Expr::Not(_)));
-                    if has_not { gen_lit(&mut rng, g.short) } else { e }
+                    if has_not {
+                        gen_lit(&mut rng, g.short)
+                    } else {
+                        e
+                    }
                 };
                 items.push(item(&format!("p{i}"), e));
             }
             rng.shuffle(&mut items);
             if !gone {
                 let kind = *rng.pick(&['D', 'E', 'F']);
-                let f = vec![Fault { sel: FSel::Query(format!("a{shared}")), kind }];
+                let f = vec![Fault {
+                    sel: FSel::Query(format!("a{shared}")),
+                    kind,
+                }];
                 for it in items.iter_mut() {
                     it.faults = f.clone();
                 }
@@ -897,12 +1314,23 @@ impl FlatCase {
     fn human(&self) -> String {
         let mut s = format!("{}{}", "NOT ".repeat(self.first.0), self.first.1.rpn());
         for (and, k, e) in &self.rest {
-            s.push_str(&format!(" {} {}{}", if *and { "AND" } else { "OR" }, "NOT ".repeat(*k), e.rpn()));
+            s.push_str(&format!(
+                " {} {}{}",
+                if *and { "AND" } else { "OR" },
+                "NOT ".repeat(*k),
+                e.rpn()
+            ));
         }
         s
     }
     pub fn descr(&self) -> String {
-        format!("c11p/{}/{} lib db={} seq={}", self.seed, self.idx, self.db.tok(), self.human())
+        format!(
+            "c11p/{}/{} lib db={} seq={}",
+            self.seed,
+            self.idx,
+            self.db.tok(),
+            self.human()
+        )
     }
     /// the same data as an ordinary case (for probes and the response table)
     fn as_case(&self) -> Case {
@@ -910,27 +1338,88 @@ impl FlatCase {
         for (i, (_, _, e)) in self.rest.iter().enumerate() {
             items.push(item(&format!("a{}", i + 1), e.clone()));
         }
-        Case { family: "c11p".into(), seed: self.seed, idx: self.idx, runner: Runner::Lib, db: self.db.clone(), items }
+        Case {
+            family: "c11p".into(),
+            seed: self.seed,
+            idx: self.idx,
+            runner: Runner::Lib,
+            db: self.db.clone(),
+            items,
+        }
     }
 }
 
 pub fn gen_flat(seed: u64, idx: usize) -> FlatCase {
     let lit = |s: &str| Expr::Lit(vec![(p(s), Op::None)], Op::None);
     match idx {
-        0 => return FlatCase { seed, idx, db: small_db(), first: (0, lit("10.0.0.0/8")), rest: vec![(true, 0, lit("11.0.0.0/8")), (false, 0, lit("12.0.0.0/8"))] },
-        1 => return FlatCase { seed, idx, db: small_db(), first: (1, lit("10.0.0.0/8")), rest: vec![(true, 0, lit("10.0.0.0/8"))] },
-        2 => return FlatCase { seed, idx, db: small_db(), first: (0, Expr::AsSet("AS-S0".into(), Op::None)), rest: vec![(true, 0, Expr::AutNum(64501, Op::None)), (false, 0, Expr::RouteSet("RS-R0".into(), Op::None))] },
+        0 => {
+            return FlatCase {
+                seed,
+                idx,
+                db: small_db(),
+                first: (0, lit("10.0.0.0/8")),
+                rest: vec![(true, 0, lit("11.0.0.0/8")), (false, 0, lit("12.0.0.0/8"))],
+            }
+        }
+        1 => {
+            return FlatCase {
+                seed,
+                idx,
+                db: small_db(),
+                first: (1, lit("10.0.0.0/8")),
+                rest: vec![(true, 0, lit("10.0.0.0/8"))],
+            }
+        }
+        2 => {
+            return FlatCase {
+                seed,
+                idx,
+                db: small_db(),
+                first: (0, Expr::AsSet("AS-S0".into(), Op::None)),
+                rest: vec![
+                    (true, 0, Expr::AutNum(64501, Op::None)),
+                    (false, 0, Expr::RouteSet("RS-R0".into(), Op::None)),
+                ],
+            }
+        }
         _ => {}
     }
     let mut rng = case_rng(seed, "c11p", idx);
     let short = idx % 2 == 1;
-    let db = gen_db(&mut rng, &GenOpts { ranged_members: false, unknown_names: false, short });
+    let db = gen_db(
+        &mut rng,
+        &GenOpts {
+            ranged_members: false,
+            unknown_names: false,
+            short,
+        },
+    );
     let names = names_of(&db, short);
-    let mut nots = |rng: &mut Rng| if short && rng.chance(1, 3) { 1 + rng.below(2) } else { 0 };
+    let mut nots = |rng: &mut Rng| {
+        if short && rng.chance(1, 3) {
+            1 + rng.below(2)
+        } else {
+            0
+        }
+    };
     let first = (nots(&mut rng), gen_atom(&mut rng, &names, false, false));
     let k = 1 + rng.below(3);
-    let rest = (0..k).map(|_| (rng.chance(1, 2), nots(&mut rng), gen_atom(&mut rng, &names, false, false))).collect();
-    FlatCase { seed, idx, db, first, rest }
+    let rest = (0..k)
+        .map(|_| {
+            (
+                rng.chance(1, 2),
+                nots(&mut rng),
+                gen_atom(&mut rng, &names, false, false),
+            )
+        })
+        .collect();
+    FlatCase {
+        seed,
+        idx,
+        db,
+        first,
+        rest,
+    }
 }
 
 // ---------------------------------------------------------------------------------------------
@@ -949,7 +1438,12 @@ fn mentioned(case: &Case) -> (Vec<Pfx>, Vec<u8>) {
                 }
                 bounds.extend(op.bounds());
             }
-            Expr::AsSet(_, op) | Expr::RouteSet(_, op) | Expr::AutNum(_, op) | Expr::RsAny(op) | Expr::AsAny(op) | Expr::PeerAs(op) => bounds.extend(op.bounds()),
+            Expr::AsSet(_, op)
+            | Expr::RouteSet(_, op)
+            | Expr::AutNum(_, op)
+            | Expr::RsAny(op)
+            | Expr::AsAny(op)
+            | Expr::PeerAs(op) => bounds.extend(op.bounds()),
             _ => {}
         });
     }
@@ -1006,7 +1500,14 @@ pub fn probes(case: &Case) -> Vec<Pfx> {
             }
         }
     }
-    for s in ["8.0.0.0/8", "0.0.0.0/0", "0.0.0.0/1", "2001:db9::/32", "::/0", "8000::/1"] {
+    for s in [
+        "8.0.0.0/8",
+        "0.0.0.0/0",
+        "0.0.0.0/1",
+        "2001:db9::/32",
+        "::/0",
+        "8000::/1",
+    ] {
         add(Some(p(s)));
     }
     let mut v: Vec<Pfx> = set.into_iter().collect();
@@ -1021,7 +1522,11 @@ pub fn probes(case: &Case) -> Vec<Pfx> {
 }
 
 fn probes_tok(ps: &[Pfx]) -> String {
-    if ps.is_empty() { ".".into() } else { ps.iter().map(|p| p.tok()).collect::<Vec<_>>().join(",") }
+    if ps.is_empty() {
+        ".".into()
+    } else {
+        ps.iter().map(|p| p.tok()).collect::<Vec<_>>().join(",")
+    }
 }
 
 /// `192.0.2.0/24^24-32`
@@ -1037,7 +1542,16 @@ fn bits_of(ranges: &[(Pfx, u8, u8)], probes: &[Pfx]) -> String {
     }
     probes
         .iter()
-        .map(|q| if ranges.iter().any(|(p, lo, hi)| p.covers(q) && *lo <= q.len && q.len <= *hi) { '1' } else { '0' })
+        .map(|q| {
+            if ranges
+                .iter()
+                .any(|(p, lo, hi)| p.covers(q) && *lo <= q.len && q.len <= *hi)
+            {
+                '1'
+            } else {
+                '0'
+            }
+        })
         .collect()
 }
 
@@ -1053,7 +1567,11 @@ pub fn modeld(lines: &[String]) -> Vec<String> {
     if lines.is_empty() {
         return vec![];
     }
-    let mut child = Command::new(modeld_path()).stdin(Stdio::piped()).stdout(Stdio::piped()).spawn().expect("spawn modeld");
+    let mut child = Command::new(modeld_path())
+        .stdin(Stdio::piped())
+        .stdout(Stdio::piped())
+        .spawn()
+        .expect("spawn modeld");
     let mut stdin = child.stdin.take().unwrap();
     let input = lines.join("\n") + "\n";
     let w = std::thread::spawn(move || {
@@ -1075,7 +1593,13 @@ fn all_queries(case: &Case) -> Vec<String> {
     let mut rs_names: BTreeSet<String> = BTreeSet::new();
     let mut fs_names: BTreeSet<String> = BTreeSet::new();
     let mut asns: BTreeSet<u32> = BTreeSet::new();
-    fn from_expr(e: &Expr, a: &mut BTreeSet<String>, r: &mut BTreeSet<String>, f: &mut BTreeSet<String>, n: &mut BTreeSet<u32>) {
+    fn from_expr(
+        e: &Expr,
+        a: &mut BTreeSet<String>,
+        r: &mut BTreeSet<String>,
+        f: &mut BTreeSet<String>,
+        n: &mut BTreeSet<u32>,
+    ) {
         e.walk(&mut |x| match x {
             Expr::AsSet(s, _) => {
                 a.insert(s.clone());
@@ -1130,7 +1654,13 @@ fn all_queries(case: &Case) -> Vec<String> {
         }
     }
     for it in &case.items {
-        from_expr(&it.expr, &mut as_names, &mut rs_names, &mut fs_names, &mut asns);
+        from_expr(
+            &it.expr,
+            &mut as_names,
+            &mut rs_names,
+            &mut fs_names,
+            &mut asns,
+        );
     }
     let mut v = vec![];
     v.extend(as_names.iter().map(|n| format!("a{n}")));
@@ -1186,7 +1716,9 @@ fn err_kind(text: &str) -> &'static str {
         "E"
     } else if text.contains("Other(") || text.contains("the query was invalid") {
         "F"
-    } else if text.contains("AcquireConnection") || text.contains("failed to acquire the connection") {
+    } else if text.contains("AcquireConnection")
+        || text.contains("failed to acquire the connection")
+    {
         "acquire"
     } else if text.contains("Dequeue") || text.contains("failed to dequeue") {
         "dequeue"
@@ -1212,7 +1744,13 @@ fn log_tok(log: &[(String, Vec<u8>)]) -> String {
         return ".".into();
     }
     log.iter()
-        .map(|(q, r)| format!("{}:{}", qtok(q), r.first().map(|b| *b as char).unwrap_or('?')))
+        .map(|(q, r)| {
+            format!(
+                "{}:{}",
+                qtok(q),
+                r.first().map(|b| *b as char).unwrap_or('?')
+            )
+        })
         .collect::<Vec<_>>()
         .join(",")
 }
@@ -1227,7 +1765,10 @@ fn eval_once(ev: &mut bgpfu::RpslEvaluator, text: &str, probes: &[Pfx]) -> Strin
     let r = catch_unwind(AssertUnwindSafe(|| ev.evaluate(expr)));
     match r {
         Ok(Ok(set)) => {
-            let ranges: Vec<(Pfx, u8, u8)> = set.ranges().filter_map(|r| parse_range(&r.to_string())).collect();
+            let ranges: Vec<(Pfx, u8, u8)> = set
+                .ranges()
+                .filter_map(|r| parse_range(&r.to_string()))
+                .collect();
             let n = set.ranges().count();
             if n != ranges.len() {
                 return "unparsable-range".into();
@@ -1235,7 +1776,10 @@ fn eval_once(ev: &mut bgpfu::RpslEvaluator, text: &str, probes: &[Pfx]) -> Strin
             format!("ok={}", bits_of(&ranges, probes))
         }
         Ok(Err(e)) => format!("err={}", err_kind(&error_chain(&e))),
-        Err(_) => format!("panic={}", panic_kind(&LAST_PANIC.with(|c| c.borrow().clone()))),
+        Err(_) => format!(
+            "panic={}",
+            panic_kind(&LAST_PANIC.with(|c| c.borrow().clone()))
+        ),
     }
 }
 
@@ -1261,7 +1805,9 @@ fn touched_names(payloads: &[String]) -> Vec<String> {
         while let Some(i) = rest.find("<policy-statement") {
             rest = &rest[i..];
             let Some(a) = rest.find("<name>") else { break };
-            let Some(b) = rest[a..].find("</name>") else { break };
+            let Some(b) = rest[a..].find("</name>") else {
+                break;
+            };
             v.push(rest[a + 6..a + b].to_string());
             rest = &rest[a + b..];
         }
@@ -1339,14 +1885,24 @@ fn run_bin(case: &Case, fake: &FakeIrrd, texts: &[String], probes: &[Pfx]) -> Ob
         };
         let out = child.wait_with_output().ok();
         let (stdout, stderr) = out
-            .map(|o| (String::from_utf8_lossy(&o.stdout).to_string(), String::from_utf8_lossy(&o.stderr).to_string()))
+            .map(|o| {
+                (
+                    String::from_utf8_lossy(&o.stdout).to_string(),
+                    String::from_utf8_lossy(&o.stderr).to_string(),
+                )
+            })
             .unwrap_or_default();
         let o = match status {
             None => "hang".to_string(),
             Some(s) if s.success() => {
                 let lines: Vec<&str> = stdout.lines().filter(|l| !l.trim().is_empty()).collect();
-                let ranges: Vec<(Pfx, u8, u8)> = lines.iter().filter_map(|l| parse_range(l.trim())).collect();
-                if ranges.len() != lines.len() { "unparsable-range".into() } else { format!("ok={}", bits_of(&ranges, probes)) }
+                let ranges: Vec<(Pfx, u8, u8)> =
+                    lines.iter().filter_map(|l| parse_range(l.trim())).collect();
+                if ranges.len() != lines.len() {
+                    "unparsable-range".into()
+                } else {
+                    format!("ok={}", bits_of(&ranges, probes))
+                }
             }
             Some(_) => {
                 if stderr.contains("panicked at") {
@@ -1366,12 +1922,23 @@ fn run_bin(case: &Case, fake: &FakeIrrd, texts: &[String], probes: &[Pfx]) -> Ob
 
 fn run_agent(case: &Case, fake: &FakeIrrd, texts: &[String], probes: &[Pfx]) -> Obs {
     let mut obs = Obs::default();
-    let cands: Vec<(String, String)> = case.items.iter().zip(texts).map(|(i, t)| (i.name.clone(), t.clone())).collect();
-    let faults = case.items.first().map(|i| fake_faults(&i.faults)).unwrap_or_default();
+    let cands: Vec<(String, String)> = case
+        .items
+        .iter()
+        .zip(texts)
+        .map(|(i, t)| (i.name.clone(), t.clone()))
+        .collect();
+    let faults = case
+        .items
+        .first()
+        .map(|i| fake_faults(&i.faults))
+        .unwrap_or_default();
     let _ = fake.begin(faults);
     LAST_PANIC.with(|c| c.borrow_mut().clear());
     let port = fake.port;
-    let r = catch_unwind(AssertUnwindSafe(|| agent::verif::evaluate(&cands, "127.0.0.1", port)));
+    let r = catch_unwind(AssertUnwindSafe(|| {
+        agent::verif::evaluate(&cands, "127.0.0.1", port)
+    }));
     obs.run = match r {
         Ok(Ok(v)) => {
             let outs: Vec<String> = v
@@ -1388,10 +1955,15 @@ fn run_agent(case: &Case, fake: &FakeIrrd, texts: &[String], probes: &[Pfx]) -> 
                             }
                         }
                         // a range listed under the wrong family would be a partition error
-                        if v4.iter().any(|s| s.contains(':')) || v6.iter().any(|s| !s.contains(':')) {
+                        if v4.iter().any(|s| s.contains(':')) || v6.iter().any(|s| !s.contains(':'))
+                        {
                             bad = true;
                         }
-                        if bad { format!("{n}=unparsable") } else { format!("{n}={}", bits_of(&ranges, probes)) }
+                        if bad {
+                            format!("{n}=unparsable")
+                        } else {
+                            format!("{n}={}", bits_of(&ranges, probes))
+                        }
                     }
                 })
                 .collect();
@@ -1399,14 +1971,36 @@ fn run_agent(case: &Case, fake: &FakeIrrd, texts: &[String], probes: &[Pfx]) -> 
                 // every candidate is installed (with ranges no evaluation here yields), plus one
                 // policy that is not managed: what does the run load?
                 use crate::plan::{real_plan, JPolicy, JTerm, Range};
-                let r4 = Range { v6: false, addr: u32::from_be_bytes([203, 0, 113, 0]) as u128, len: 25, lo: 25, hi: 32 };
-                let r6 = Range { v6: true, addr: 0x2001_0db8_ffff_0000_0000_0000_0000_0000u128, len: 48, lo: 48, hi: 128 };
+                let r4 = Range {
+                    v6: false,
+                    addr: u32::from_be_bytes([203, 0, 113, 0]) as u128,
+                    len: 25,
+                    lo: 25,
+                    hi: 32,
+                };
+                let r6 = Range {
+                    v6: true,
+                    addr: 0x2001_0db8_ffff_0000_0000_0000_0000_0000u128,
+                    len: 48,
+                    lo: 48,
+                    hi: 128,
+                };
                 let pol = |name: &str| JPolicy {
                     name: name.into(),
                     comment: None,
                     terms: vec![
-                        JTerm { name: "inet".into(), family: Some("inet".into()), filters: vec![r4.clone()], accept: true },
-                        JTerm { name: "inet6".into(), family: Some("inet6".into()), filters: vec![r6.clone()], accept: true },
+                        JTerm {
+                            name: "inet".into(),
+                            family: Some("inet".into()),
+                            filters: vec![r4.clone()],
+                            accept: true,
+                        },
+                        JTerm {
+                            name: "inet6".into(),
+                            family: Some("inet6".into()),
+                            filters: vec![r6.clone()],
+                            accept: true,
+                        },
                     ],
                     reject: true,
                 };
@@ -1414,18 +2008,40 @@ fn run_agent(case: &Case, fake: &FakeIrrd, texts: &[String], probes: &[Pfx]) -> 
                 cfg.push(pol("stale"));
                 // the facade takes ranges in `FromStr` syntax, `evaluate` shows them in `Display` syntax
                 let conv = |v: &[String], six: bool| -> Vec<String> {
-                    v.iter().map(|s| crate::plan::parse_display(s, six).map(|r| crate::plan::fromstr_syntax(&r)).unwrap_or_else(|| s.clone())).collect()
+                    v.iter()
+                        .map(|s| {
+                            crate::plan::parse_display(s, six)
+                                .map(|r| crate::plan::fromstr_syntax(&r))
+                                .unwrap_or_else(|| s.clone())
+                        })
+                        .collect()
                 };
                 let ev: Vec<_> = v
                     .iter()
-                    .map(|(n, e, r)| (n.clone(), e.clone(), r.as_ref().map(|(a, b)| (conv(a, false), conv(b, true)))))
+                    .map(|(n, e, r)| {
+                        (
+                            n.clone(),
+                            e.clone(),
+                            r.as_ref().map(|(a, b)| (conv(a, false), conv(b, true))),
+                        )
+                    })
                     .collect();
                 obs.touched = Some(real_plan(&cfg, &ev).map(|p| touched_names(&p)));
             }
-            format!("done {}", if outs.is_empty() { ".".into() } else { outs.join(",") })
+            format!(
+                "done {}",
+                if outs.is_empty() {
+                    ".".into()
+                } else {
+                    outs.join(",")
+                }
+            )
         }
         Ok(Err(e)) => format!("error={}", hexs(&e)),
-        Err(_) => format!("panic={}", panic_kind(&LAST_PANIC.with(|c| c.borrow().clone()))),
+        Err(_) => format!(
+            "panic={}",
+            panic_kind(&LAST_PANIC.with(|c| c.borrow().clone()))
+        ),
     };
     obs.unexpected = fake.unexpected();
     obs
@@ -1440,7 +2056,17 @@ fn build_bgpfu(sink: &mut Sink) -> bool {
         return true;
     }
     let st = Command::new("cargo")
-        .args(["build", "--offline", "-q", "-p", "bgpfu-cli", "--manifest-path", "/repo/Cargo.toml", "--target-dir", "repo-target"])
+        .args([
+            "build",
+            "--offline",
+            "-q",
+            "-p",
+            "bgpfu-cli",
+            "--manifest-path",
+            "/repo/Cargo.toml",
+            "--target-dir",
+            "repo-target",
+        ])
         .env("CARGO_NET_OFFLINE", "true")
         .env_remove("RUSTFLAGS")
         .env_remove("CARGO_ENCODED_RUSTFLAGS")
@@ -1450,7 +2076,13 @@ fn build_bgpfu(sink: &mut Sink) -> bool {
     match st {
         Ok(o) if o.status.success() => true,
         Ok(o) => {
-            sink.notes.push(format!("building the bgpfu binary failed: {}", String::from_utf8_lossy(&o.stderr).chars().take(400).collect::<String>()));
+            sink.notes.push(format!(
+                "building the bgpfu binary failed: {}",
+                String::from_utf8_lossy(&o.stderr)
+                    .chars()
+                    .take(400)
+                    .collect::<String>()
+            ));
             false
         }
         Err(e) => {
@@ -1461,11 +2093,22 @@ fn build_bgpfu(sink: &mut Sink) -> bool {
 }
 
 pub fn main(opts: &Opts) {
-    let family = opts.extra.iter().find(|e| ["c11", "c17", "c15", "c03"].contains(&e.as_str())).cloned().unwrap_or_else(|| "c11".into());
+    let family = opts
+        .extra
+        .iter()
+        .find(|e| ["c11", "c17", "c15", "c03"].contains(&e.as_str()))
+        .cloned()
+        .unwrap_or_else(|| "c11".into());
     let cfg = opts
         .extra
         .iter()
-        .find(|e| *e == "fixed" || *e == "pinned" || (e.starts_with('c') && e.len() == 4 && e[1..].chars().all(|c| c == '0' || c == '1')))
+        .find(|e| {
+            *e == "fixed"
+                || *e == "pinned"
+                || (e.starts_with('c')
+                    && e.len() == 4
+                    && e[1..].chars().all(|c| c == '0' || c == '1'))
+        })
         .cloned()
         .unwrap_or_else(|| "fixed".into());
     let mut sink = Sink::new();
@@ -1477,8 +2120,14 @@ pub fn main(opts: &Opts) {
             let mut ev = bgpfu::RpslEvaluator::new("127.0.0.1", fake.port).unwrap();
             let t = Instant::now();
             let expr: rpsl::expr::MpFilterExpr = text.parse().unwrap();
-            let r = ev.evaluate(expr).map(|s| s.ranges().map(|r| r.to_string()).collect::<Vec<_>>());
-            println!("{text} -> {:?} in {:?}", r.map(|v| (v.len(), v.into_iter().take(6).collect::<Vec<_>>())), t.elapsed());
+            let r = ev
+                .evaluate(expr)
+                .map(|s| s.ranges().map(|r| r.to_string()).collect::<Vec<_>>());
+            println!(
+                "{text} -> {:?} in {:?}",
+                r.map(|v| (v.len(), v.into_iter().take(6).collect::<Vec<_>>())),
+                t.elapsed()
+            );
         }
         return;
     }
@@ -1500,7 +2149,9 @@ pub fn main(opts: &Opts) {
                 let head = d.split(['\t', ' ']).next().unwrap_or("");
                 let parts: Vec<&str> = head.split('/').collect();
                 if parts.len() == 3 {
-                    if let (Ok(seed), Ok(idx)) = (parts[1].parse::<u64>(), parts[2].parse::<usize>()) {
+                    if let (Ok(seed), Ok(idx)) =
+                        (parts[1].parse::<u64>(), parts[2].parse::<usize>())
+                    {
                         if ["c11", "c17", "c15", "c03"].contains(&parts[0]) {
                             cases.push(gen_case(parts[0], seed, idx));
                         }
@@ -1530,8 +2181,16 @@ pub fn main(opts: &Opts) {
             }
         }
     }
-    if std::env::var("VH_DEBUG").is_ok() { for c in &cases { eprintln!("case {}", c.descr()); } }
-    let have_bin = if cases.iter().any(|c| c.runner == Runner::Bin) { build_bgpfu(&mut sink) } else { true };
+    if std::env::var("VH_DEBUG").is_ok() {
+        for c in &cases {
+            eprintln!("case {}", c.descr());
+        }
+    }
+    let have_bin = if cases.iter().any(|c| c.runner == Runner::Bin) {
+        build_bgpfu(&mut sink)
+    } else {
+        true
+    };
 
     // ask the model for every response table and every expression text, in one batch
     let mut lines: Vec<String> = vec![];
@@ -1551,7 +2210,17 @@ pub fn main(opts: &Opts) {
         queries.push(qs);
     }
     let answers = modeld(&lines);
-    if std::env::var("VH_DEBUG").is_ok() { eprintln!("modeld answered {} lines", answers.len()); for (l,a) in lines.iter().zip(&answers) { eprintln!("  {l}\n   -> {}", unhex(a).map(|b| String::from_utf8_lossy(&b).to_string()).unwrap_or(a.clone())); } }
+    if std::env::var("VH_DEBUG").is_ok() {
+        eprintln!("modeld answered {} lines", answers.len());
+        for (l, a) in lines.iter().zip(&answers) {
+            eprintln!(
+                "  {l}\n   -> {}",
+                unhex(a)
+                    .map(|b| String::from_utf8_lossy(&b).to_string())
+                    .unwrap_or(a.clone())
+            );
+        }
+    }
 
     struct Job {
         case: Case,
@@ -1583,18 +2252,39 @@ pub fn main(opts: &Opts) {
                 }
             }
         }
-        jobs.push(Job { probes: probes(c), case: c.clone(), table, texts, bad_model });
+        jobs.push(Job {
+            probes: probes(c),
+            case: c.clone(),
+            table,
+            texts,
+            bad_model,
+        });
     }
 
     let results = run_pool(jobs, 8, move |j: Job| {
         if j.bad_model {
-            return (j.case, j.texts, j.probes, Obs { note: "modeld rejected the case (bad-op)".into(), ..Default::default() });
+            return (
+                j.case,
+                j.texts,
+                j.probes,
+                Obs {
+                    note: "modeld rejected the case (bad-op)".into(),
+                    ..Default::default()
+                },
+            );
         }
         let fake = FakeIrrd::start(j.table);
         let obs = match j.case.runner {
             Runner::Lib => run_lib(&j.case, &fake, &j.texts, &j.probes),
             Runner::Bin => {
-                if have_bin { run_bin(&j.case, &fake, &j.texts, &j.probes) } else { Obs { note: "no bgpfu binary".into(), ..Default::default() } }
+                if have_bin {
+                    run_bin(&j.case, &fake, &j.texts, &j.probes)
+                } else {
+                    Obs {
+                        note: "no bgpfu binary".into(),
+                        ..Default::default()
+                    }
+                }
             }
             Runner::Agent => run_agent(&j.case, &fake, &j.texts, &j.probes),
         };
@@ -1605,7 +2295,14 @@ pub fn main(opts: &Opts) {
     let c03_lines: Vec<String> = results
         .iter()
         .filter(|(c, ..)| c.family == "c03")
-        .map(|(c, _, pr, _)| format!("irr evalall {cfg} {} {FUEL} {} {}", c.db.tok(), c.cands_tok(), probes_tok(pr)))
+        .map(|(c, _, pr, _)| {
+            format!(
+                "irr evalall {cfg} {} {FUEL} {} {}",
+                c.db.tok(),
+                c.cands_tok(),
+                probes_tok(pr)
+            )
+        })
         .collect();
     let mut c03_model = modeld(&c03_lines).into_iter();
     for (case, texts, probes, obs) in results {
@@ -1626,32 +2323,60 @@ pub fn main(opts: &Opts) {
             sink.count("with_unsupported_construct");
         }
         if !obs.note.is_empty() {
-            sink.direct(&d, format!("violation harness-{}", obs.note.replace(' ', "-").chars().take(60).collect::<String>()));
+            sink.direct(
+                &d,
+                format!(
+                    "violation harness-{}",
+                    obs.note
+                        .replace(' ', "-")
+                        .chars()
+                        .take(60)
+                        .collect::<String>()
+                ),
+            );
             continue;
         }
         if !obs.unexpected.is_empty() {
-            sink.direct(&d, format!("violation unexpected-query-{}", hexs(&obs.unexpected[0])));
+            sink.direct(
+                &d,
+                format!("violation unexpected-query-{}", hexs(&obs.unexpected[0])),
+            );
         }
         match case.runner {
             Runner::Lib | Runner::Bin => {
                 let impl_line = obs.hist.join(";");
                 if case.runner == Runner::Lib {
-                    sink.corr(&d, format!("irr evalseq {cfg} {db} {FUEL} {} {pt}", case.items_tok()), impl_line.clone());
+                    sink.corr(
+                        &d,
+                        format!("irr evalseq {cfg} {db} {FUEL} {} {pt}", case.items_tok()),
+                        impl_line.clone(),
+                    );
                 } else {
                     // one process (one connection, one evaluator) per expression
                     for (k, it) in case.items.iter().enumerate() {
                         let one = format!("{}*{}", it.expr.hex(), faults_tok(&it.faults));
-                        sink.corr(&d, format!("irr evalseq {cfg} {db} {FUEL} {one} {pt}"), obs.hist[k].clone());
+                        sink.corr(
+                            &d,
+                            format!("irr evalseq {cfg} {db} {FUEL} {one} {pt}"),
+                            obs.hist[k].clone(),
+                        );
                     }
                 }
                 for (k, it) in case.items.iter().enumerate() {
                     let outcome = obs.hist[k].split('/').next().unwrap_or("").to_string();
-                    sink.count(&format!("outcome.{}", outcome.split('=').next().unwrap_or("")));
+                    sink.count(&format!(
+                        "outcome.{}",
+                        outcome.split('=').next().unwrap_or("")
+                    ));
                     match case.family.as_str() {
-                        "c11" => sink.spec(&d, format!("irr spec11 {db} {FUEL} {} {pt} {outcome}", it.expr.hex())),
+                        "c11" => sink.spec(
+                            &d,
+                            format!("irr spec11 {db} {FUEL} {} {pt} {outcome}", it.expr.hex()),
+                        ),
                         "c15" => {
                             // lib-level: the outcome of one expression, whatever was evaluated (or panicked) before
-                            let cand = format!("{}*{}*{}", it.name, it.expr.hex(), faults_tok(&it.faults));
+                            let cand =
+                                format!("{}*{}*{}", it.name, it.expr.hex(), faults_tok(&it.faults));
                             let o = match outcome.split_once('=') {
                                 Some(("ok", b)) => format!("done {}={b}", it.name),
                                 Some(("err", _)) => format!("done {}=none", it.name),
@@ -1672,47 +2397,103 @@ pub fn main(opts: &Opts) {
                     let _ = texts;
                 }
                 if case.runner == Runner::Lib && (case.family == "c17" || case.family == "c15") {
-                    let hist: Vec<String> = obs.hist.iter().map(|h| h.split('/').next().unwrap_or("").to_string()).collect();
-                    sink.spec(&d, format!("irr spec17 {} {}", hist.join(";"), obs.fresh.join(";")));
+                    let hist: Vec<String> = obs
+                        .hist
+                        .iter()
+                        .map(|h| h.split('/').next().unwrap_or("").to_string())
+                        .collect();
+                    sink.spec(
+                        &d,
+                        format!("irr spec17 {} {}", hist.join(";"), obs.fresh.join(";")),
+                    );
                 }
                 sink.sample(format!("{d} -> {impl_line}"));
             }
             Runner::Agent => {
                 // which unsupported candidate is reached first depends on the HashMap's iteration order
-                let canon = if obs.run.starts_with("panic=") { "panic".to_string() } else { obs.run.clone() };
-                sink.corr(&d, format!("irr evalall {cfg} {db} {FUEL} {} {pt}", case.cands_tok()), canon);
-                sink.count(&format!("run.{}", obs.run.split([' ', '=']).next().unwrap_or("")));
+                let canon = if obs.run.starts_with("panic=") {
+                    "panic".to_string()
+                } else {
+                    obs.run.clone()
+                };
+                sink.corr(
+                    &d,
+                    format!("irr evalall {cfg} {db} {FUEL} {} {pt}", case.cands_tok()),
+                    canon,
+                );
+                sink.count(&format!(
+                    "run.{}",
+                    obs.run.split([' ', '=']).next().unwrap_or("")
+                ));
                 match case.family.as_str() {
                     "c11" => {
                         // per policy: the installed set is the denoted set
                         if let Some(rest) = obs.run.strip_prefix("done ") {
-                            let outs: HashMap<&str, &str> = rest.split(',').filter_map(|x| x.split_once('=')).collect();
+                            let outs: HashMap<&str, &str> =
+                                rest.split(',').filter_map(|x| x.split_once('=')).collect();
                             for it in &case.items {
                                 let o = outs.get(it.name.as_str()).copied().unwrap_or("missing");
-                                let o = if o == "none" { "err=?".to_string() } else { format!("ok={o}") };
-                                sink.spec(&d, format!("irr spec11 {db} {FUEL} {} {pt} {o}", it.expr.hex()));
+                                let o = if o == "none" {
+                                    "err=?".to_string()
+                                } else {
+                                    format!("ok={o}")
+                                };
+                                sink.spec(
+                                    &d,
+                                    format!("irr spec11 {db} {FUEL} {} {pt} {o}", it.expr.hex()),
+                                );
                             }
                         } else {
-                            sink.direct(&d, format!("violation agent-evaluate-{}", obs.run.split(' ').next().unwrap_or("")));
+                            sink.direct(
+                                &d,
+                                format!(
+                                    "violation agent-evaluate-{}",
+                                    obs.run.split(' ').next().unwrap_or("")
+                                ),
+                            );
                         }
                     }
                     "c03" => {
-                        sink.spec(&d, format!("irr spec15 {db} {FUEL} {} {pt} {}", case.cands_tok(), obs.run));
+                        sink.spec(
+                            &d,
+                            format!(
+                                "irr spec15 {db} {FUEL} {} {pt} {}",
+                                case.cands_tok(),
+                                obs.run
+                            ),
+                        );
                         let model = c03_model.next().unwrap_or_default();
                         // candidates the model cannot evaluate (IRR error): the run must not touch them
                         let failing: Vec<String> = model
                             .strip_prefix("done ")
-                            .map(|r| r.split(',').filter_map(|x| x.split_once('=')).filter(|(_, o)| *o == "none").map(|(n, _)| n.to_string()).collect())
+                            .map(|r| {
+                                r.split(',')
+                                    .filter_map(|x| x.split_once('='))
+                                    .filter(|(_, o)| *o == "none")
+                                    .map(|(n, _)| n.to_string())
+                                    .collect()
+                            })
                             .unwrap_or_default();
                         sink.count(&format!("c03.failing.{}", failing.len().min(4)));
                         let verdict = match (&obs.touched, model.starts_with("done ")) {
-                            (_, false) => format!("violation model-run-{}", model.split(' ').next().unwrap_or("")),
-                            (None, _) => format!("violation agent-evaluate-{}", obs.run.split([' ', '=']).next().unwrap_or("")),
+                            (_, false) => format!(
+                                "violation model-run-{}",
+                                model.split(' ').next().unwrap_or("")
+                            ),
+                            (None, _) => format!(
+                                "violation agent-evaluate-{}",
+                                obs.run.split([' ', '=']).next().unwrap_or("")
+                            ),
                             (Some(Err(e)), _) => format!("violation plan-failed-{}", hexs(e)),
                             (Some(Ok(t)), _) => {
-                                let hit: Vec<&String> = failing.iter().filter(|n| t.contains(n)).collect();
+                                let hit: Vec<&String> =
+                                    failing.iter().filter(|n| t.contains(n)).collect();
                                 if hit.is_empty() {
-                                    if !t.iter().any(|n| n == "stale") { "violation unmanaged-not-deleted".to_string() } else { "ok".to_string() }
+                                    if !t.iter().any(|n| n == "stale") {
+                                        "violation unmanaged-not-deleted".to_string()
+                                    } else {
+                                        "ok".to_string()
+                                    }
                                 } else {
                                     "violation failed-evaluation-causes-update".to_string()
                                 }
@@ -1720,7 +2501,14 @@ pub fn main(opts: &Opts) {
                         };
                         sink.direct(&d, verdict);
                     }
-                    _ => sink.spec(&d, format!("irr spec15 {db} {FUEL} {} {pt} {}", case.cands_tok(), obs.run)),
+                    _ => sink.spec(
+                        &d,
+                        format!(
+                            "irr spec15 {db} {FUEL} {} {pt} {}",
+                            case.cands_tok(),
+                            obs.run
+                        ),
+                    ),
                 }
                 sink.sample(format!("{d} -> {}", obs.run));
             }
@@ -1757,10 +2545,22 @@ pub fn main(opts: &Opts) {
                 }
             }
             let text = unhex(&answers[first + qs.len()]).and_then(|b| String::from_utf8(b).ok());
-            jobs.push(FJob { probes: probes(&f.as_case()), f: f.clone(), table, text });
+            jobs.push(FJob {
+                probes: probes(&f.as_case()),
+                f: f.clone(),
+                table,
+                text,
+            });
         }
         let results = run_pool(jobs, 8, move |j: FJob| {
-            let Some(text) = j.text.clone() else { return (j.f, j.probes, String::new(), "modeld rejected the case".to_string()) };
+            let Some(text) = j.text.clone() else {
+                return (
+                    j.f,
+                    j.probes,
+                    String::new(),
+                    "modeld rejected the case".to_string(),
+                );
+            };
             let fake = FakeIrrd::start(j.table);
             let mut ev = match bgpfu::RpslEvaluator::new("127.0.0.1", fake.port) {
                 Ok(e) => e,
@@ -1769,7 +2569,12 @@ pub fn main(opts: &Opts) {
             let start = fake.begin(vec![]);
             let o = eval_once(&mut ev, &text, &j.probes);
             let log = fake.log_from(start);
-            (j.f, j.probes, format!("{o}/{}", log_tok(&log)), String::new())
+            (
+                j.f,
+                j.probes,
+                format!("{o}/{}", log_tok(&log)),
+                String::new(),
+            )
         });
         for (f, probes, obs, note) in results {
             let d = f.descr();
@@ -1780,15 +2585,30 @@ pub fn main(opts: &Opts) {
             let pt = probes_tok(&probes);
             let db = f.db.tok();
             sink.count("precedence.sequences");
-            sink.corr(&d, format!("irr evalflat {cfg} {db} {FUEL} {} {pt}", f.tok()), obs.clone());
+            sink.corr(
+                &d,
+                format!("irr evalflat {cfg} {db} {FUEL} {} {pt}", f.tok()),
+                obs.clone(),
+            );
             let outcome = obs.split('/').next().unwrap_or("").to_string();
-            sink.spec(&d, format!("irr specprec {db} {FUEL} {} {pt} {outcome}", f.tok()));
+            sink.spec(
+                &d,
+                format!("irr specprec {db} {FUEL} {} {pt} {outcome}", f.tok()),
+            );
             sink.sample(format!("{d} -> {outcome}"));
         }
     }
 
     // liveness of NOT: complementing a set must not take time exponential in the prefix length
-    let replay_not = opts.replay.as_ref().map(|p| std::fs::read_to_string(p).unwrap_or_default().contains("case\tnot-complexity")).unwrap_or(false);
+    let replay_not = opts
+        .replay
+        .as_ref()
+        .map(|p| {
+            std::fs::read_to_string(p)
+                .unwrap_or_default()
+                .contains("case\tnot-complexity")
+        })
+        .unwrap_or(false);
     if (opts.replay.is_none() && family == "c11") || replay_not {
         let fake = FakeIrrd::start(HashMap::new());
         let time = |len: u8| -> f64 {
@@ -1799,19 +2619,48 @@ pub fn main(opts: &Opts) {
             t.elapsed().as_secs_f64()
         };
         let (t12, t15, t18) = (time(12), time(15), time(18));
-        sink.notes.push(format!("NOT {{10.0.0.0/n}}: n=12 {:.1} ms, n=15 {:.1} ms, n=18 {:.1} ms", t12 * 1e3, t15 * 1e3, t18 * 1e3));
+        sink.notes.push(format!(
+            "NOT {{10.0.0.0/n}}: n=12 {:.1} ms, n=15 {:.1} ms, n=18 {:.1} ms",
+            t12 * 1e3,
+            t15 * 1e3,
+            t18 * 1e3
+        ));
         // linear (or n log n) growth would give ratios near 1.2; doubling per bit gives 8 per step
         let exponential = t18 > 0.05 && t18 > 5.0 * t15 && t15 > 3.0 * t12;
-        sink.direct("not-complexity 12/15/18", if exponential { "violation not-exponential-in-prefix-length".into() } else { "ok".into() });
+        sink.direct(
+            "not-complexity 12/15/18",
+            if exponential {
+                "violation not-exponential-in-prefix-length".into()
+            } else {
+                "ok".into()
+            },
+        );
     }
 
     // connection refused: construction fails with an error (no panic, no hang)
     if opts.replay.is_none() {
         let port = FakeIrrd::refusing_port();
         let r = catch_unwind(|| bgpfu::RpslEvaluator::new("127.0.0.1", port).is_err());
-        sink.direct("refused/lib", if matches!(r, Ok(true)) { "ok".into() } else { "violation connect-refused-not-an-error".into() });
-        let r = catch_unwind(|| agent::verif::evaluate(&[("p0".to_string(), "ANY".to_string())], "127.0.0.1", port).is_err());
-        sink.direct("refused/agent", if matches!(r, Ok(true)) { "ok".into() } else { "violation connect-refused-not-an-error".into() });
+        sink.direct(
+            "refused/lib",
+            if matches!(r, Ok(true)) {
+                "ok".into()
+            } else {
+                "violation connect-refused-not-an-error".into()
+            },
+        );
+        let r = catch_unwind(|| {
+            agent::verif::evaluate(&[("p0".to_string(), "ANY".to_string())], "127.0.0.1", port)
+                .is_err()
+        });
+        sink.direct(
+            "refused/agent",
+            if matches!(r, Ok(true)) {
+                "ok".into()
+            } else {
+                "violation connect-refused-not-an-error".into()
+            },
+        );
     }
     sink.add("wall_ms", t0.elapsed().as_millis() as u64);
     sink.write(opts, &format!("evalseq"));
